@@ -208,6 +208,22 @@ Proof.
   exact (declare_apply_is_new_store V D jdec unm_ok ans now_s).
 Qed.
 
+(* An Apply depends ONLY on the store it is given - not on earlier Applies of the same parsed Fields,
+   whatever store they went to and whether they succeeded: the second component of apply_twice is
+   apply on sB, it is the same for every first store, and (with the store invariant for sB) its results
+   satisfy the per-field specification of C20_field_values with respect to sB alone: every field holds
+   the current value of its own name IN sB (a handle field: a handle of sB), or is untouched and
+   reported.  In the model this is immediate - `apply` has no input besides the parsed fields, the prefix
+   and the store - and it is stated so that the question is visible: that a *Fields of the Go code keeps
+   no state between Applies (no memoised handle or bytes, no "already populated" shortcut) is checked by
+   the correspondence run, mode "reapply". *)
+Theorem C20_apply_stateless : forall pfx pfs (sA sA' sB : store V),
+  snd (apply_twice jdec unm_ok ans now_s pfx pfs sA sB) = apply jdec unm_ok ans now_s pfx sB pfs /\
+  snd (apply_twice jdec unm_ok ans now_s pfx pfs sA sB) = snd (apply_twice jdec unm_ok ans now_s pfx pfs sA' sB) /\
+  (Inv sB -> forall s' frs rq, snd (apply_twice jdec unm_ok ans now_s pfx pfs sA sB) = (s', frs, rq) ->
+     Inv s' /\ Forall2 (field_spec V D jdec unm_ok ans sB s' pfx) pfs frs).
+Proof. exact (apply_twice_stateless V D jdec unm_ok ans now_s). Qed.
+
 End C20.
 
 Print Assumptions C20_path_model.
@@ -222,6 +238,7 @@ Print Assumptions C20_bytes_private.
 Print Assumptions C20_reject_upfront.
 Print Assumptions C20_errors_joined.
 Print Assumptions C20_secrets_pure.
+Print Assumptions C20_apply_stateless.
 
 (* ---- non-vacuity: a concrete struct, store and service *)
 Open Scope N_scope.
